@@ -491,8 +491,13 @@ def run_batch(prop, tier, verif_seed, n_runs=None, workers=None, budget_s=None, 
                 unconfirmed.append(f"violation in run {i} did not reproduce on re-execution: {str(v)[:300]}")
                 continue
             log = {}
-            small = minimise(check, desc, v["clause"], known, prop, shrink_budget if not new_reports else shrink_budget / 4,
-                             log, keep_sig)
+            try:
+                small = minimise(check, desc, v["clause"], known, prop, shrink_budget if not new_reports else shrink_budget / 4,
+                                 log, keep_sig)
+            except Exception:
+                # a fault in a check's shrinker must never hide a confirmed violation: report it unminimised
+                log["shrinker_fault"] = traceback.format_exc()[-600:]
+                small = desc
             final = _fails_same(check, small, v["clause"], known, prop, keep_sig)
             if final is None:
                 small, final = desc, confirm
